@@ -1,10 +1,8 @@
 package zv
 
 import (
-	"fmt"
 	"go/token"
 	"go/types"
-	"os"
 	"regexp"
 	"sort"
 	"strings"
@@ -23,7 +21,135 @@ func init() {
 	}
 }
 
-var bwsGuarded = map[string]bool{"initialized": true, "stopped": true, "writer": true, "ticker": true, "stop": true, "done": true, "Clock": true}
+// bwsRoles: the unexported state of BufferedWriteSyncer, found by what each field is (type, who assigns it, who closes
+// it) rather than by what it is called.
+type bwsRoles struct {
+	mu, writer, ticker, stop, done, initialized, stopped string
+	initFn, loop                                         *ssa.Function
+}
+
+var bwsR bwsRoles
+
+// top: the syncer's own field a (possibly nested) state field lives in
+func top(path string) string {
+	if i := strings.Index(path, "."); i >= 0 {
+		return path[:i]
+	}
+	return path
+}
+
+func (r bwsRoles) guarded() map[string]bool {
+	return map[string]bool{top(r.initialized): true, top(r.stopped): true, top(r.writer): true, top(r.ticker): true, top(r.stop): true, top(r.done): true, "Clock": true}
+}
+
+func discoverBWS(c *Ctx, bws *types.Named) (r bwsRoles, ok bool) {
+	stt, isS := bws.Underlying().(*types.Struct)
+	if !isS {
+		return r, false
+	}
+	// candidate fields: the unexported fields of the type and of unexported struct values it embeds by value
+	type cand struct {
+		path  string // dotted path below the syncer
+		owner *types.Named
+		name  string
+		typ   types.Type
+	}
+	var cands []cand
+	for i := 0; i < stt.NumFields(); i++ {
+		f := stt.Field(i)
+		if f.Exported() {
+			continue
+		}
+		cands = append(cands, cand{f.Name(), bws, f.Name(), f.Type()})
+		if n, isN := types.Unalias(f.Type()).(*types.Named); isN && n.Obj().Pkg() != nil && n.Obj().Pkg().Path() == CorePath {
+			if inner, isSt := n.Underlying().(*types.Struct); isSt {
+				for j := 0; j < inner.NumFields(); j++ {
+					g := inner.Field(j)
+					cands = append(cands, cand{f.Name() + "." + g.Name(), n, g.Name(), g.Type()})
+				}
+			}
+		}
+	}
+	var chans, bools []cand
+	var writer cand
+	for _, cd := range cands {
+		switch TypeName(cd.typ) {
+		case "sync.Mutex":
+			r.mu = cd.path
+		case "*bufio.Writer":
+			r.writer, writer = cd.path, cd
+		case "*time.Ticker":
+			r.ticker = cd.path
+		default:
+			switch t := types.Unalias(cd.typ).Underlying().(type) {
+			case *types.Chan:
+				chans = append(chans, cd)
+			case *types.Basic:
+				if t.Kind() == types.Bool {
+					bools = append(bools, cd)
+				}
+			}
+		}
+	}
+	if writer.owner == nil {
+		return r, false
+	}
+	// the initialiser assigns the bufio writer; the flush loop is what a go statement of the type's methods starts
+	for _, a := range c.FieldAccesses(writer.owner, map[string]bool{writer.name: true}) {
+		if a.Write && !a.Esc {
+			r.initFn = a.Fn
+		}
+	}
+	c.EachRootFunc(func(fn *ssa.Function) {
+		if rn := RecvNamed(fn); rn == nil || rn.Obj() != bws.Obj() {
+			return
+		}
+		AllInstrs(fn, func(i ssa.Instruction) {
+			if g, isGo := i.(*ssa.Go); isGo {
+				if sc := g.Call.StaticCallee(); sc != nil {
+					if rn := RecvNamed(sc); rn != nil && rn.Obj() == bws.Obj() {
+						r.loop = sc
+					}
+				}
+			}
+		})
+	})
+	// done: the channel the loop closes; stop: the other one
+	if r.loop != nil {
+		for _, g := range WithClosures(r.loop) {
+			for _, cl := range Calls(g) {
+				if CallBuiltin(cl) == "close" && len(cl.Common().Args) == 1 {
+					d := Desc(cl.Common().Args[0])
+					for _, cd := range chans {
+						if strings.HasSuffix(d, "."+cd.path) {
+							r.done = cd.path
+						}
+					}
+				}
+			}
+		}
+	}
+	for _, cd := range chans {
+		if cd.path != r.done {
+			r.stop = cd.path
+		}
+	}
+	// initialized: the flag the initialiser sets; stopped: the other flag
+	for _, cd := range bools {
+		for _, a := range c.FieldAccesses(cd.owner, map[string]bool{cd.name: true}) {
+			if a.Write && a.Fn == r.initFn {
+				r.initialized = cd.path
+			}
+		}
+	}
+	for _, cd := range bools {
+		if cd.path != r.initialized {
+			r.stopped = cd.path
+		}
+	}
+	ok = r.mu != "" && r.writer != "" && r.ticker != "" && r.stop != "" && r.done != "" && r.initialized != "" && r.stopped != "" && r.initFn != nil && r.loop != nil && len(chans) == 2 && len(bools) == 2
+	return r, ok
+}
 
 // guardedBy checks the accesses of a struct's guarded fields against a mutex field.
 func guardedBy(c *Ctx, rule string, named *types.Named, guarded map[string]bool, mutexField string, entryHeld map[string]bool, exempt func(a Access) string) int {
@@ -76,7 +202,7 @@ func checkC12(c *Ctx) {
 	c.Rule("R12.1", "every access to BufferedWriteSyncer's mutable state holds its mutex", 10)
 	c.Rule("R12.2", "Write: one buffered write of the original parameter; flush first exactly when it does not fit and the buffer is non-empty", 3)
 	c.Rule("R12.3", "Sync flushes when initialised and always syncs the sink", 2)
-	c.Rule("R12.4", "Stop protocol: atomic test-and-set, close once, wait unlocked, final Sync, non-blocking otherwise", 4)
+	c.Rule("R12.4", "Stop protocol: atomic test-and-set, close once, wait unlocked, final Sync, non-blocking otherwise", 1)
 	c.Rule("R12.5", "flush loop: done closed on exit, exits only on stop, Sync on every tick; single go statement in initialize", 3)
 	c12Rules(c, "R12.1", "R12.2", "R12.3", "R12.4", "R12.5")
 	c.Rule("R12.6", "every call into the wrapped sink or its bufio writer (Write, Flush, Sync) runs with the mutex held: the sink needs no lock of its own", 2)
@@ -118,7 +244,7 @@ func c12SinkOwnership(c *Ctx, rule string) {
 			switch {
 			case fa == "WS" && f.Name() != "Sync":
 				direct = append(direct, FuncKey(fn)+": "+Desc(a0)+"."+f.Name())
-			case fa == "writer" && (f.Name() == "Reset" || f.Name() == "ReadFrom"):
+			case fa == bwsR.writer && (f.Name() == "Reset" || f.Name() == "ReadFrom"):
 				discard = append(discard, FuncKey(fn)+": "+Desc(a0)+"."+f.Name())
 			}
 		}
@@ -159,41 +285,42 @@ func c12Rules(c *Ctx, r1, r2, r3, r4, r5 string) {
 	if !c.Anchor(r1, "zapcore.BufferedWriteSyncer", bws != nil) {
 		return
 	}
-	initFn := c.Method(CorePath, "BufferedWriteSyncer", "initialize")
-	loop := c.Method(CorePath, "BufferedWriteSyncer", "flushLoop")
+	roles, rolesOK := discoverBWS(c, bws)
+	bwsR = roles
+	initFn, loop := roles.initFn, roles.loop
 	write := c.Method(CorePath, "BufferedWriteSyncer", "Write")
 	sync := c.Method(CorePath, "BufferedWriteSyncer", "Sync")
 	stop := c.Method(CorePath, "BufferedWriteSyncer", "Stop")
-	if !c.Anchor(r1, "BufferedWriteSyncer.initialize/flushLoop/Write/Sync/Stop", initFn != nil && loop != nil && write != nil && sync != nil && stop != nil) {
+	if !c.Anchor(r1, "BufferedWriteSyncer: mutex, bufio writer, ticker, stop/done channels, initialised/stopped flags, initialiser, flush loop, Write/Sync/Stop", rolesOK && write != nil && sync != nil && stop != nil) {
 		return
 	}
 	if r1 != "" {
 		// initialize: all callers hold the lock
 		entry := map[string]bool{}
-		callers := c.CallersOf("(*go.uber.org/zap/zapcore.BufferedWriteSyncer).initialize")
+		callers := c.CallersOf(initFn.String())
 		allHeld := len(callers) > 0
 		for _, cl := range callers {
 			h := MustHeld(cl.Parent(), nil)
-			m := Desc(Args(cl)[0]) + ".mu"
+			m := Desc(Args(cl)[0]) + "." + roles.mu
 			ok := h[cl][m] == 1
-			notInit := HasAtom(Guards(cl), func(s string) bool { return s == "!"+Desc(Args(cl)[0])+".initialized" })
+			notInit := HasAtom(Guards(cl), func(s string) bool { return s == "!"+Desc(Args(cl)[0])+"."+roles.initialized })
 			c.Check(ok && notInit, r1, FuncKey(cl.Parent()), "initialize-called-locked", cl.Pos(), "initialize() is called with %s held and only under !initialized (lockset %s, guards %v)", m, h[cl], AtomStrings(Guards(cl)))
 			allHeld = allHeld && ok
 		}
 		if allHeld {
 			entry[initFn.String()] = true
 		}
-		guardedBy(c, r1, bws, bwsGuarded, "mu", entry, func(a Access) string {
-			if (a.Fn == loop || onlyCalledFrom(a.Fn, loop, 0)) && !a.Write && (a.Field == "ticker" || a.Field == "stop" || a.Field == "done") {
+		guardedBy(c, r1, bws, roles.guarded(), roles.mu, entry, func(a Access) string {
+			if (a.Fn == loop || onlyCalledFrom(a.Fn, loop, 0)) && !a.Write && (a.Field == top(roles.ticker) || a.Field == top(roles.stop) || a.Field == top(roles.done)) {
 				return "flushLoop reads ticker/stop/done, which are written once in initialize before the go statement that starts it (happens-before) and never again"
 			}
-			if a.Fn == stop && !a.Write && a.Field == "done" && len(Guards(a.Instr)) > 0 {
+			if a.Fn == stop && !a.Write && a.Field == top(roles.done) && len(Guards(a.Instr)) > 0 {
 				return "Stop reads done after its own critical section observed initialized == true; done is written once, in initialize, under the same mutex (happens-before through the lock)"
 			}
 			return ""
 		})
 		// ... and indeed never again: writers of ticker/stop/done/writer are only initialize
-		for _, a := range c.FieldAccesses(bws, map[string]bool{"ticker": true, "stop": true, "done": true, "writer": true}) {
+		for _, a := range c.FieldAccesses(bws, map[string]bool{top(roles.ticker): true, top(roles.stop): true, top(roles.done): true, top(roles.writer): true}) {
 			if a.Write && !a.Esc {
 				c.Check(a.Fn == initFn, r1, FuncKey(a.Fn), "written-once/"+a.Field, a.Instr.Pos(), "%s is assigned only in initialize", a.Field)
 			}
@@ -201,140 +328,8 @@ func c12Rules(c *Ctx, r1, r2, r3, r4, r5 string) {
 	}
 	if r2 != "" {
 		c12SinkOwnership(c, r2)
-		name := write.String()
-		p := writeParam(write)
-		var bw []*ssa.Call
-		var flush *ssa.Call
-		for _, cl := range CallsDeep(write) {
-			if IsCallTo(cl, "(*bufio.Writer).Write") {
-				bw = append(bw, cl.(*ssa.Call))
-			}
-			if IsCallTo(cl, "(*bufio.Writer).Flush") {
-				flush, _ = cl.(*ssa.Call)
-			}
-		}
-		origParam := false
-		if len(bw) == 1 {
-			Bound(func() { origParam = Desc(bw[0].Call.Args[1]) == p.Name() })
-			origParam = origParam || bw[0].Call.Args[1] == ssa.Value(p)
-		}
-		c.Check(len(bw) == 1 && origParam, r2, name, "single-whole-write", write.Pos(), "exactly one bufio write, of the original parameter (a re-sliced or split payload would tear a line)")
-		if flush == nil || len(bw) != 1 {
-			c.Bad(r2, name, "flush-before-write", write.Pos(), "no Flush call before the buffered write")
-		} else {
-			// Path exploration (helpers inline): on which paths is the buffer flushed before the write?
-			recv := write.Params[0].Name()
-			wD := recv + ".writer"
-			norm := func(d string) string {
-				d = strings.ReplaceAll(d, "(Size("+wD+") - Buffered("+wD+"))", "Available("+wD+")")
-				return d
-			}
-			// classify a branch condition: "fit" (the payload does not fit: len(p) > Available), "pending" (Buffered > 0)
-			classCond := func(cond ssa.Value, st *ConcState) (string, bool) {
-				pol := true
-				for k := 0; k < 8; k++ {
-					if u, ok := cond.(*ssa.UnOp); ok && u.Op == token.NOT {
-						cond, pol = u.X, !pol
-						continue
-					}
-					if nx := st.Step(cond); nx != nil {
-						cond = nx
-						continue
-					}
-					break
-				}
-				bo, ok := cond.(*ssa.BinOp)
-				if !ok {
-					return "", false
-				}
-				x, y, op := norm(st.Desc(bo.X)), norm(st.Desc(bo.Y)), bo.Op
-				lenP, avail, buf := "len("+p.Name()+")", "Available("+wD+")", "Buffered("+wD+")"
-				if x == avail && y == lenP || x == "0" && y == buf {
-					x, y, op = y, x, swapOp(op)
-				}
-				switch {
-				case x == lenP && y == avail && op == token.GTR:
-					return "nofit", pol
-				case x == lenP && y == avail && op == token.LEQ:
-					return "nofit", !pol
-				case x == buf && y == "0" && (op == token.GTR || op == token.NEQ):
-					return "pending", pol
-				case x == buf && y == "0" && (op == token.LEQ || op == token.EQL):
-					return "pending", !pol
-				}
-				return "", false
-			}
-			seqs, trunc := ConcPaths(write, ConcCfg{
-				Event: func(in ssa.Instruction, st *ConcState) string {
-					if cl, ok := in.(*ssa.Call); ok {
-						if IsCallTo(cl, "(*bufio.Writer).Flush") {
-							return "flush"
-						}
-						if IsCallTo(cl, "(*bufio.Writer).Write") {
-							return "write"
-						}
-					}
-					return ""
-				},
-				Branch: func(cond ssa.Value, taken bool, st *ConcState) string {
-					k, v := classCond(cond, st)
-					if k == "" {
-						if os.Getenv("ZV_DEBUG") != "" {
-							return "?" + st.Desc(cond) + fmt.Sprint(st.fmem)
-						}
-						return ""
-					}
-					if v == taken {
-						return k + "=T"
-					}
-					return k + "=F"
-				},
-			})
-			var bad []string
-			nFlush := 0
-			for _, sq := range seqs {
-				ev := strings.Split(sq, " ; ")
-				fl, wr := -1, -1
-				facts := map[string]bool{}
-				for i, e := range ev {
-					switch e {
-					case "flush":
-						if fl < 0 {
-							fl = i
-						}
-					case "write":
-						wr = i
-					default:
-						if wr < 0 && fl < 0 {
-							facts[e] = true
-						}
-					}
-				}
-				if fl >= 0 {
-					nFlush++
-					if !(facts["nofit=T"] && facts["pending=T"]) {
-						bad = append(bad, "flushes without having established both conditions: "+sq)
-					}
-				} else if wr >= 0 && !(facts["nofit=F"] || facts["pending=F"]) {
-					bad = append(bad, "writes without a flush although neither condition was found false: "+sq)
-				}
-			}
-			if trunc || len(seqs) == 0 {
-				c.Und(r2, name, "flush-condition", flush.Pos(), "path exploration of Write incomplete (%d, truncated=%v)", len(seqs), trunc)
-			} else {
-				c.Check(len(bad) == 0 && nFlush > 0, r2, name, "flush-condition", flush.Pos(), "over all %d paths of Write (helpers inline) the buffer is flushed first exactly when the payload does not fit (len(p) > Available) and something is pending (Buffered > 0); any further conjunct would let bufio split an oversized write across two sink writes: %v", len(seqs), bad)
-			}
-			c.Check(!ExistsPath(write, bw[0], func(i ssa.Instruction) bool { return i == ssa.Instruction(flush) }, nil), r2, name, "flush-precedes", flush.Pos(), "the flush never follows the write")
-			okErr := false
-			for _, r := range Returns(write) {
-				rv := RetVals(r)
-				if mayCarry(Strip(rv[1]), flush, 0) {
-					v, isC := ConstInt(rv[0])
-					okErr = isC && v == 0 && HasAtom(Guards(r), func(s string) bool { return s == Desc(Strip(rv[1]))+" != nil" }) && !Dominates(bw[0], r)
-				}
-			}
-			c.Check(okErr, r2, name, "flush-error-returns-zero", flush.Pos(), "a flush error returns (0, err) before anything of the new payload is buffered")
-		}
+		c12Write(c, r2, roles, write)
+		c12BufferSize(c, r2, roles)
 	}
 	if r3 != "" {
 		isWS := func(i ssa.Instruction) bool {
@@ -363,7 +358,7 @@ func c12Rules(c *Ctx, r1, r2, r3, r4, r5 string) {
 			}
 			seqs, trunc := ConcPaths(sync, ConcCfg{
 				Conc: func(d string) (int64, bool) {
-					if d == recvN+".initialized" {
+					if d == recvN+"."+roles.initialized {
 						return iv, true
 					}
 					return 0, false
@@ -406,97 +401,13 @@ func c12Rules(c *Ctx, r1, r2, r3, r4, r5 string) {
 		}
 	}
 	if r4 != "" {
-		name := stop.String()
-		var storeStopped *ssa.Store
-		var closeStop, tickerStop ssa.Instruction
-		var owner *ssa.Function
-		var recvDone ssa.Instruction
-		var finalSync ssa.Instruction
-		for _, f := range Region(stop) {
-			AllInstrs(f, func(i ssa.Instruction) {
-				switch x := i.(type) {
-				case *ssa.Store:
-					if strings.HasSuffix(Desc(x.Addr), ".stopped") {
-						storeStopped, owner = x, f
-					}
-				case *ssa.Call:
-					if CallBuiltin(x) == "close" && strings.HasSuffix(Desc(x.Call.Args[0]), ".stop") {
-						closeStop = x
-					}
-					if IsCallTo(x, "(*time.Ticker).Stop") {
-						tickerStop = x
-					}
-					if IsCallTo(x, "(*go.uber.org/zap/zapcore.BufferedWriteSyncer).Sync") {
-						finalSync = x
-					}
-				case *ssa.UnOp:
-					if x.Op == token.ARROW && strings.HasSuffix(Desc(x.X), ".done") {
-						recvDone = x
-					}
-				}
-			})
-		}
-		if storeStopped == nil || closeStop == nil || recvDone == nil {
-			c.Bad(r4, name, "shape", stop.Pos(), "expected a store to stopped, close(stop) and <-done (found %v %v %v)", storeStopped != nil, closeStop != nil, recvDone != nil)
-		} else {
-			held := MustHeldCtx(owner)
-			m := ""
-			for k := range held[storeStopped] {
-				m = k
-			}
-			// test and set in one critical section
-			atoms := AtomStrings(Guards(storeStopped))
-			tested := false
-			for _, a := range atoms {
-				if strings.HasSuffix(a, ".stopped") && strings.HasPrefix(a, "!") {
-					tested = true
-				}
-			}
-			unlockBetween := false
-			if iff, _, _ := BranchOn(owner, strings.TrimPrefix(firstWithSuffix(atoms, ".stopped"), "!")); iff != nil {
-				unlockBetween = ExistsPath(owner, iff, func(i ssa.Instruction) bool { return i == ssa.Instruction(storeStopped) }, nil) &&
-					!ExistsPath(owner, iff, func(i ssa.Instruction) bool { return i == ssa.Instruction(storeStopped) }, func(i ssa.Instruction) bool {
-						cl, ok := i.(*ssa.Call)
-						if !ok {
-							return false
-						}
-						k, _ := LockEvent(cl)
-						return k < 0
-					})
-			}
-			c.Check(tested && m != "" && Desc(storeStopped.Val) == "true" && !unlockBetween && storeStopped.Parent() == closeStop.Parent(), r4, name, "test-and-set-atomic", storeStopped.Pos(),
-				"the stopped flag is tested (false) and set in the same critical section (lockset %s, guards %v); a separate section lets two Stop calls both close the channel", held[storeStopped], atoms)
-			initd := false
-			for _, a := range atoms {
-				if strings.HasSuffix(a, ".initialized") && !strings.HasPrefix(a, "!") {
-					initd = true
-				}
-			}
-			c.Check(initd, r4, name, "latched-only-when-running", storeStopped.Pos(), "stopped is latched only when the syncer is initialised (guards %v); latching it on a never-written syncer makes every later Stop a no-op although a later Write still starts the flush loop", atoms)
-			sameSection := closeStop.Parent() == owner && Dominates(storeStopped, closeStop) && held[closeStop][m] == 1
-			c.Check(sameSection && tickerStop != nil && tickerStop.Parent() == owner && Dominates(storeStopped, tickerStop), r4, name, "close-once-on-setting-path", closeStop.Pos(),
-				"close(stop) and ticker.Stop() run only after this call set the flag, still under the lock (a second close would panic)")
-			hr := MustHeldCtx(recvDone.Parent())
-			c.Check(len(hr[recvDone]) == 0, r4, name, "waits-unlocked", recvDone.Pos(), "<-done is executed with no mutex held (lockset %s); holding it would deadlock against the flush loop's Sync (issue 1428)", hr[recvDone])
-			c.Check(finalSync != nil && finalSync.Parent() == recvDone.Parent() && Dominates(recvDone, finalSync), r4, name, "final-sync", recvDone.Pos(), "a final Sync follows the wait")
-			// non-blocking on the other paths: returns not dominated by recvDone are reached without channel ops
-			blocks := false
-			for _, r := range Returns(stop) {
-				if Dominates(recvDone, r) {
-					continue
-				}
-				if !ExistsPath(stop, nil, func(i ssa.Instruction) bool { return i == ssa.Instruction(r) }, func(i ssa.Instruction) bool { return i == recvDone }) {
-					blocks = true
-				}
-			}
-			c.Check(!blocks, r4, name, "other-paths-return", stop.Pos(), "not-initialised / already-stopped calls return without waiting")
-		}
+		c12Stop(c, r4, roles, stop)
 	}
 	if r5 != "" {
 		name := loop.String()
 		deferClose := false
 		AllInstrs(loop, func(i ssa.Instruction) {
-			if d, ok := i.(*ssa.Defer); ok && CallBuiltin(d) == "close" && strings.HasSuffix(Desc(d.Call.Args[0]), ".done") && d.Block() == loop.Blocks[0] {
+			if d, ok := i.(*ssa.Defer); ok && CallBuiltin(d) == "close" && strings.HasSuffix(Desc(d.Call.Args[0]), "."+roles.done) && d.Block() == loop.Blocks[0] {
 				deferClose = true
 			}
 		})
@@ -554,9 +465,9 @@ func c12Rules(c *Ctx, r1, r2, r3, r4, r5 string) {
 				d := st.Desc(sel.States[kk].Chan)
 				nm := "case?" + d
 				switch {
-				case strings.HasSuffix(d, ".ticker.C"):
+				case strings.HasSuffix(d, "."+roles.ticker+".C"):
 					nm = "tick"
-				case strings.HasSuffix(d, ".stop"):
+				case strings.HasSuffix(d, "."+roles.stop):
 					nm = "stop"
 				}
 				if pol == (bo.Op == token.EQL) {
@@ -700,4 +611,474 @@ func onlyCalledFrom(f, root *ssa.Function, depth int) bool {
 		}
 	}
 	return true
+}
+
+// c12Stop: by path exploration of Stop (helpers and the critical-section literal inline) with the initialised and
+// stopped flags fixed to each combination: a syncer that is not running or already stopped only takes and releases
+// the lock and returns nil - no wait, no close; a running one latches the flag, stops the ticker and closes the stop
+// channel inside one critical section (so that two Stops cannot both close it), waits for the flush loop with no lock
+// held (it may need the lock to finish, issue 1428), and then syncs once more.
+func c12Stop(c *Ctx, rule string, roles bwsRoles, stop *ssa.Function) {
+	name := stop.String()
+	recv := stop.Params[0]
+	rn := recv.Name()
+	fieldOf := func(st *ConcState, v ssa.Value) string {
+		d := st.Desc(v)
+		d = strings.TrimPrefix(d, "&")
+		if strings.HasPrefix(d, rn+".") {
+			return d[len(rn)+1:]
+		}
+		return "?" + d
+	}
+	nOK := 0
+	var bad []string
+	for _, init := range []int64{0, 1} {
+		for _, stopped := range []int64{0, 1} {
+			seqs, trunc := ConcPaths(stop, ConcCfg{
+				InitFields: []FieldVal{{Obj: recv, Field: roles.initialized, Val: init}, {Obj: recv, Field: roles.stopped, Val: stopped}},
+				Conc: func(d string) (int64, bool) {
+					switch d {
+					case rn + "." + roles.initialized:
+						return init, true
+					case rn + "." + roles.stopped:
+						return stopped, true
+					}
+					return 0, false
+				},
+				Inline: func(h *ssa.Function) bool { return h.Name() != "Sync" },
+				Branch: func(cond ssa.Value, taken bool, st *ConcState) string {
+					// a nil test of the done channel: it is created together with the initialised flag (R12.1:
+					// assigned only in the initialiser), so "nil" cannot be observed on a running syncer
+					pol := taken
+					for k := 0; k < 8; k++ {
+						if u, ok := cond.(*ssa.UnOp); ok && u.Op == token.NOT {
+							cond, pol = u.X, !pol
+							continue
+						}
+						if nx := st.Step(cond); nx != nil {
+							cond = nx
+							continue
+						}
+						break
+					}
+					bo, ok := cond.(*ssa.BinOp)
+					if !ok || !IsNilConst(bo.Y) || (bo.Op != token.EQL && bo.Op != token.NEQ) {
+						return ""
+					}
+					v := bo.X
+					for k := 0; k < 12; k++ {
+						if ct, ok := v.(*ssa.ChangeType); ok {
+							v = ct.X
+							continue
+						}
+						nx := st.Step(v)
+						if nx == nil {
+							break
+						}
+						v = nx
+					}
+					if u, ok := v.(*ssa.UnOp); ok && u.Op == token.MUL && fieldOf(st, u.X) == roles.done {
+						if pol == (bo.Op == token.EQL) {
+							return "done-is-nil"
+						}
+					}
+					return ""
+				},
+				DeferRun: func(d *ssa.Defer, st *ConcState) string {
+					if k, m := LockEvent(d); m != "" && strings.HasSuffix(m, "."+roles.mu) {
+						if k > 0 {
+							return "lock"
+						}
+						return "unlock"
+					}
+					return ""
+				},
+				Event: func(in ssa.Instruction, st *ConcState) string {
+					switch x := in.(type) {
+					case *ssa.Store:
+						if fa, ok := x.Addr.(*ssa.FieldAddr); ok && fieldOf(st, fa) == roles.stopped {
+							if k, known := st.Int(x.Val); known && k == 1 {
+								return "latch"
+							}
+							return "stopped=?"
+						}
+					case *ssa.Call:
+						if k, m := LockEvent(x); m != "" && strings.HasSuffix(m, "."+roles.mu) {
+							if k > 0 {
+								return "lock"
+							}
+							return "unlock"
+						}
+						switch {
+						case CallBuiltin(x) == "close" && len(x.Call.Args) == 1:
+							return "close(" + fieldOf(st, x.Call.Args[0]) + ")"
+						case IsCallTo(x, "(*time.Ticker).Stop"):
+							return "ticker.Stop"
+						case IsCallTo(x, "(*go.uber.org/zap/zapcore.BufferedWriteSyncer).Sync"):
+							return "sync"
+						}
+					case *ssa.UnOp:
+						if x.Op == token.ARROW {
+							return "recv(" + fieldOf(st, x.X) + ")"
+						}
+					case *ssa.Select:
+						return "select"
+					case *ssa.Return:
+						if len(x.Results) == 1 {
+							if n, known := st.IsNil(x.Results[0]); known && n {
+								return "ret(nil)"
+							}
+							return "ret(err)"
+						}
+						return "ret"
+					}
+					return ""
+				},
+			})
+			tag := "initialised=" + itoa(int(init)) + " stopped=" + itoa(int(stopped)) + ": "
+			if trunc || len(seqs) == 0 {
+				c.Und(rule, name, "stop-protocol", stop.Pos(), "path exploration incomplete (%s)", tag)
+				return
+			}
+			for _, sq := range seqs {
+				if init == 1 && strings.Contains(sq, "done-is-nil") {
+					continue // not a state a running syncer can be in
+				}
+				sq = strings.ReplaceAll(sq, "done-is-nil ; ", "")
+				ok := false
+				if init == 1 && stopped == 0 {
+					ok = sq == "lock ; latch ; ticker.Stop ; close("+roles.stop+") ; unlock ; recv("+roles.done+") ; sync ; ret(err)" ||
+						sq == "lock ; latch ; close("+roles.stop+") ; ticker.Stop ; unlock ; recv("+roles.done+") ; sync ; ret(err)"
+				} else {
+					ok = sq == "lock ; unlock ; ret(nil)"
+				}
+				if ok {
+					nOK++
+				} else {
+					bad = append(bad, tag+sq)
+				}
+			}
+		}
+	}
+	c.Check(len(bad) == 0 && nOK >= 4, rule, name, "stop-protocol", stop.Pos(), "for each combination of the initialised/stopped flags: not running or already stopped → lock, unlock, return nil (no wait, no close); running → lock, latch stopped, stop the ticker and close the stop channel, unlock, then wait for the flush loop with no lock held, then a final Sync whose result is returned: %v", bad)
+}
+
+// c12Write: by path exploration of Write (helpers inline; the outcome of Flush forked): every path hands the caller's
+// bytes to the bufio writer exactly once, unless a flush failed - then (0, err) is returned and nothing of the new
+// payload is buffered; the buffer is flushed first exactly on the paths that established "does not fit" (len(p) >
+// Available) and "something is pending" (Buffered > 0) - any further conjunct would let bufio split an oversized write
+// across two sink writes; a flush never follows the write.
+func c12Write(c *Ctx, rule string, roles bwsRoles, write *ssa.Function) {
+	name := write.String()
+	p := writeParam(write)
+	if p == nil {
+		c.Und(rule, name, "single-whole-write", write.Pos(), "cannot identify the payload parameter")
+		return
+	}
+	recv := write.Params[0].Name()
+	wD := recv + "." + roles.writer
+	norm := func(d string) string {
+		return strings.ReplaceAll(d, "(Size("+wD+") - Buffered("+wD+"))", "Available("+wD+")")
+	}
+	resolve := func(st *ConcState, v ssa.Value) ssa.Value {
+		for k := 0; k < 16 && v != nil; k++ {
+			if ct, ok := v.(*ssa.ChangeType); ok {
+				v = ct.X
+				continue
+			}
+			nx := st.Step(v)
+			if nx == nil {
+				break
+			}
+			v = nx
+		}
+		return v
+	}
+	classCond := func(cond ssa.Value, st *ConcState) (string, bool) {
+		pol := true
+		for k := 0; k < 8; k++ {
+			if u, ok := cond.(*ssa.UnOp); ok && u.Op == token.NOT {
+				cond, pol = u.X, !pol
+				continue
+			}
+			if nx := st.Step(cond); nx != nil {
+				cond = nx
+				continue
+			}
+			break
+		}
+		bo, ok := cond.(*ssa.BinOp)
+		if !ok {
+			return "", false
+		}
+		x, y, op := norm(st.Desc(bo.X)), norm(st.Desc(bo.Y)), bo.Op
+		lenP, avail, buf := "len("+p.Name()+")", "Available("+wD+")", "Buffered("+wD+")"
+		if x == avail && y == lenP || x == "0" && y == buf {
+			x, y, op = y, x, swapOp(op)
+		}
+		switch {
+		case x == lenP && y == avail && op == token.GTR:
+			return "nofit", pol
+		case x == lenP && y == avail && op == token.LEQ:
+			return "nofit", !pol
+		case x == buf && y == "0" && (op == token.GTR || op == token.NEQ):
+			return "pending", pol
+		case x == buf && y == "0" && (op == token.LEQ || op == token.EQL):
+			return "pending", !pol
+		}
+		return "", false
+	}
+	seqs, trunc := ConcPaths(write, ConcCfg{
+		Conc: func(d string) (int64, bool) {
+			if d == recv+"."+roles.initialized {
+				return 1, true
+			}
+			return 0, false
+		},
+		Fork: func(in ssa.Instruction, st *ConcState) []ConcAlt {
+			if cl, ok := in.(*ssa.Call); ok && IsCallTo(cl, "(*bufio.Writer).Flush") {
+				return []ConcAlt{{Ev: "flush-ok", Nils: map[ssa.Value]bool{cl: true}}, {Ev: "flush-failed", Nils: map[ssa.Value]bool{cl: false}}}
+			}
+			return nil
+		},
+		DeferRun: func(d *ssa.Defer, st *ConcState) string {
+			if k, m := LockEvent(d); m != "" && strings.HasSuffix(m, "."+roles.mu) {
+				if k > 0 {
+					return "lock"
+				}
+				return "unlock"
+			}
+			return ""
+		},
+		Event: func(in ssa.Instruction, st *ConcState) string {
+			switch x := in.(type) {
+			case *ssa.Call:
+				if k, m := LockEvent(x); m != "" && strings.HasSuffix(m, "."+roles.mu) {
+					if k > 0 {
+						return "lock"
+					}
+					return "unlock"
+				}
+				if IsCallTo(x, "(*bufio.Writer).Flush") {
+					return "flush"
+				}
+				if IsCallTo(x, "(*bufio.Writer).Write", "(*bufio.Writer).WriteString") {
+					if resolve(st, Args(x)[1]) == ssa.Value(p) {
+						return "write(p)"
+					}
+					return "write(?" + st.Desc(Args(x)[1]) + ")"
+				}
+			case *ssa.Return:
+				if len(x.Results) != 2 {
+					return "ret"
+				}
+				n := "?"
+				if k, known := st.Int(x.Results[0]); known {
+					n = itoa(int(k))
+				} else if cl, ok := resolve(st, x.Results[0]).(*ssa.Extract); ok {
+					if w, ok := cl.Tuple.(*ssa.Call); ok && IsCallTo(w, "(*bufio.Writer).Write", "(*bufio.Writer).WriteString") {
+						n = "written"
+					}
+				}
+				e := "?"
+				if nl, known := st.IsNil(x.Results[1]); known {
+					e = map[bool]string{true: "nil", false: "err"}[nl]
+				} else if cl, ok := resolve(st, x.Results[1]).(*ssa.Extract); ok {
+					if w, ok := cl.Tuple.(*ssa.Call); ok && IsCallTo(w, "(*bufio.Writer).Write", "(*bufio.Writer).WriteString") {
+						e = "write-err"
+					}
+				}
+				return "ret(" + n + "," + e + ")"
+			}
+			return ""
+		},
+		Branch: func(cond ssa.Value, taken bool, st *ConcState) string {
+			k, v := classCond(cond, st)
+			if k == "" {
+				return ""
+			}
+			if v == taken {
+				return k + "=T"
+			}
+			return k + "=F"
+		},
+	})
+	if trunc || len(seqs) == 0 {
+		c.Und(rule, name, "flush-condition", write.Pos(), "path exploration of Write incomplete (%d, truncated=%v)", len(seqs), trunc)
+		return
+	}
+	var badW, badCond, badOrder, badErr, badAtomic []string
+	nFlush := 0
+	for _, sq := range seqs {
+		// one critical section from the first look at the buffer's fill state to the write
+		{
+			locked, looked, broken := false, false, false
+			for _, e := range strings.Split(sq, " ; ") {
+				switch {
+				case e == "lock":
+					locked = true
+				case e == "unlock":
+					locked = false
+					if looked {
+						broken = true
+					}
+				case strings.HasPrefix(e, "nofit=") || strings.HasPrefix(e, "pending=") || e == "flush":
+					looked = true
+					if !locked {
+						broken = true
+					}
+				case strings.HasPrefix(e, "write("):
+					if !locked || broken {
+						badAtomic = append(badAtomic, sq)
+					}
+					looked = false
+				}
+			}
+		}
+		sq = strings.ReplaceAll(strings.ReplaceAll(" ; "+sq+" ; ", " ; lock ; ", " ; "), " ; unlock ; ", " ; ")
+		sq = strings.ReplaceAll(sq, " ; unlock ; ", " ; ")
+		sq = strings.TrimSuffix(strings.TrimPrefix(sq, " ; "), " ; ")
+		ev := strings.Split(sq, " ; ")
+		fl, wr, nw := -1, -1, 0
+		failed := false
+		facts := map[string]bool{}
+		for i, e := range ev {
+			switch {
+			case e == "flush":
+				if fl < 0 {
+					fl = i
+				}
+				if wr >= 0 {
+					badOrder = append(badOrder, sq)
+				}
+			case e == "flush-failed":
+				failed = true
+			case e == "flush-ok":
+			case strings.HasPrefix(e, "write("):
+				nw++
+				wr = i
+				if e != "write(p)" {
+					badW = append(badW, sq)
+				}
+			case strings.HasPrefix(e, "ret("):
+			default:
+				if wr < 0 && fl < 0 {
+					facts[e] = true
+				}
+			}
+		}
+		last := ev[len(ev)-1]
+		if failed {
+			if nw != 0 || last != "ret(0,err)" {
+				badErr = append(badErr, sq)
+			}
+			continue
+		}
+		if nw != 1 || last != "ret(written,write-err)" {
+			badW = append(badW, sq)
+		}
+		if fl >= 0 {
+			nFlush++
+			if !(facts["nofit=T"] && facts["pending=T"]) {
+				badCond = append(badCond, "flushes without having established both conditions: "+sq)
+			}
+		} else if !(facts["nofit=F"] || facts["pending=F"]) {
+			badCond = append(badCond, "writes without a flush although neither condition was found false: "+sq)
+		}
+	}
+	lim := func(l []string) []string {
+		if len(l) > 2 {
+			return append(l[:2:2], "… "+itoa(len(l)-2)+" more")
+		}
+		return l
+	}
+	c.Check(len(badW) == 0, rule, name, "single-whole-write", write.Pos(), "on every path that does not end in a flush error the caller's bytes are handed to the bufio writer exactly once, whole, and its result is what Write returns (a re-sliced or split payload would tear a line): %v", lim(badW))
+	c.Check(nFlush > 0, rule, name, "flush-before-write", write.Pos(), "some path flushes the buffer before the write")
+	c.Check(len(badCond) == 0 && nFlush > 0, rule, name, "flush-condition", write.Pos(), "over all %d paths of Write (helpers inline) the buffer is flushed first exactly when the payload does not fit (len(p) > Available) and something is pending (Buffered > 0); any further conjunct would let bufio split an oversized write across two sink writes: %v", len(seqs), lim(badCond))
+	c.Check(len(badAtomic) == 0, rule, name, "check-and-write-atomic", write.Pos(), "the fit test, the flush and the write happen in one critical section (between the test and the write the mutex is never released, or another writer's bytes could use up the space that was just found): %v", lim(badAtomic))
+	c.Check(len(badOrder) == 0, rule, name, "flush-precedes", write.Pos(), "the flush never follows the write: %v", lim(badOrder))
+	c.Check(len(badErr) == 0, rule, name, "flush-error-returns-zero", write.Pos(), "a flush error returns (0, err) before anything of the new payload is buffered: %v", lim(badErr))
+}
+
+// c12BufferSize: the initialiser creates the bufio writer over the wrapped sink with exactly the configured size (the
+// default when Size is 0) - a larger buffer holds back more than the documented bound - and the ticker with exactly
+// the configured interval; evaluated with Size / FlushInterval fixed to 0 and to an odd non-zero value.
+func c12BufferSize(c *Ctx, rule string, roles bwsRoles) {
+	fn := roles.initFn
+	name := fn.String()
+	rn := fn.Params[0].Name()
+	defSize, ok1 := c.ConstVal(CorePath, "_defaultBufferSize")
+	defIvl, ok2 := c.ConstVal(CorePath, "_defaultFlushInterval")
+	if !c.Anchor(rule, "zapcore._defaultBufferSize/_defaultFlushInterval", ok1 && ok2) {
+		return
+	}
+	var bad []string
+	n := 0
+	for _, cfg := range [][2]int64{{0, 0}, {5001, 1234567}} {
+		size, ivl := cfg[0], cfg[1]
+		wantSize, wantIvl := size, ivl
+		if size == 0 {
+			wantSize = defSize
+		}
+		if ivl == 0 {
+			wantIvl = defIvl
+		}
+		seqs, trunc := ConcPaths(fn, ConcCfg{
+			Conc: func(d string) (int64, bool) {
+				switch d {
+				case rn + ".Size":
+					return size, true
+				case rn + ".FlushInterval":
+					return ivl, true
+				}
+				return 0, false
+			},
+			Event: func(in ssa.Instruction, st *ConcState) string {
+				x, ok := in.(*ssa.Call)
+				if !ok {
+					return ""
+				}
+				a := Args(x)
+				switch {
+				case IsCallTo(x, "bufio.NewWriterSize") && len(a) == 2:
+					k, known := st.Int(a[1])
+					if !known {
+						return "buffer(size ?" + st.Desc(a[1]) + ")"
+					}
+					sink := "sink"
+					if st.Desc(a[0]) != rn+".WS" {
+						sink = "?" + st.Desc(a[0])
+					}
+					return "buffer(" + sink + "," + itoa(int(k)) + ")"
+				case IsCallTo(x, "bufio.NewWriter"):
+					return "buffer(default-bufio-size)"
+				case x.Call.IsInvoke() && x.Call.Method.Name() == "NewTicker" && len(x.Call.Args) == 1:
+					k, known := st.Int(x.Call.Args[0])
+					if !known {
+						return "ticker(?" + st.Desc(x.Call.Args[0]) + ")"
+					}
+					return "ticker(" + itoa(int(k)) + ")"
+				}
+				return ""
+			},
+		})
+		if trunc || len(seqs) == 0 {
+			c.Und(rule, name, "configured-size-and-interval", fn.Pos(), "path exploration incomplete")
+			return
+		}
+		want := map[string]bool{"buffer(sink," + itoa(int(wantSize)) + ")": true, "ticker(" + itoa(int(wantIvl)) + ")": true}
+		for _, sq := range seqs {
+			n++
+			got := map[string]bool{}
+			for _, t := range strings.Split(sq, " ; ") {
+				got[t] = true
+			}
+			for w := range want {
+				if !got[w] {
+					bad = append(bad, "Size="+itoa(int(size))+" FlushInterval="+itoa(int(ivl))+": expected "+w+", path does "+sq)
+				}
+			}
+		}
+	}
+	c.Check(len(bad) == 0 && n >= 2, rule, name, "configured-size-and-interval", fn.Pos(), "the bufio writer wraps the sink with exactly Size bytes (%d when Size is 0) and the ticker runs at exactly FlushInterval (the default when 0): %v", defSize, bad)
 }
